@@ -294,6 +294,36 @@ func C17(c *ev.Ctx) {
 		}
 		_ = os.RemoveAll(out)
 	}
+	// re-translation after an edit that makes the new output a proper PREFIX of the file already there (packages with an
+	// FFI prelude have no footer): goodffi loses its last function; latebad's last function becomes untranslatable and
+	// -ignore-errors leaves it out
+	for _, sc := range []struct {
+		pkg, kind string
+		ign       bool
+	}{{"goodffi", "full", false}, {"latebad", "partial", true}} {
+		newModule()
+		out := filepath.Join(c.Scratch, "c17prefix")
+		_ = os.RemoveAll(out)
+		args := []string{"-out", out, "-dir", root}
+		if sc.ign {
+			args = append(args, "-ignore-errors")
+		}
+		args = append(args, "./"+c17Dirs[sc.pkg])
+		_, _ = run(root, args...)
+		first, _ := os.ReadFile(filepath.Join(out, c17CoqPath(sc.pkg)))
+		c17Write(root, sc.pkg, 2)
+		msg, _ := run(root, args...)
+		got, _ := os.ReadFile(filepath.Join(out, c17CoqPath(sc.pkg)))
+		want := ref[fmt.Sprintf("%s/2/%s", sc.pkg, sc.kind)]
+		c17Write(root, sc.pkg, 1)
+		if want == nil || first == nil {
+			c.Inconclusive("no reference for %s/2/%s", sc.pkg, sc.kind)
+		} else if !bytes.Equal(got, want) {
+			c.Violation("c17.stale-after-edit", fmt.Sprintf("package %s translated, edited (its last function removed / made untranslatable) and translated again into the same directory: the file (%d bytes) is not the translation of the current sources (%d bytes; the earlier file had %d and starts with it)\n%s", sc.pkg, len(got), len(want), len(first), firstLines(msg, 4)),
+				map[string]string{"got.v": string(got), "want.v": string(want)})
+		}
+		_ = os.RemoveAll(out)
+	}
 	// very many failing packages in one invocation (exit statuses are 8 bits wide: a status derived from a count
 	// must not wrap to 0): 256 packages with a conversion error each, then 257 with one good package more
 	{
